@@ -69,6 +69,10 @@ def f32_is_nan (b : Nat) : Bool := b % 2 ^ 31 > 0x7f800000
 /-- little-endian value of the first eight bytes of a slice (`u64::from_le(ptr::read_unaligned(..))`) -/
 def readU64LE (s : List Nat) : Nat := (s.take 8).foldr (fun b acc => b + 256 * acc) 0
 
+/-- `(a, b).hash(state)` for a pair of `i128`: std's `Hash` for tuples hashes the components in order, and `i128::hash` is one
+`Hasher::write_i128` call — the sequence of words fed to the Hasher -/
+def hashFeedPair (p : Int × Int) : List Int := [p.1, p.2]
+
 def divU (x y : Nat) : Outcome Nat := if y = 0 then .panic .rdivzero else .ok (x / y)
 def remU (x y : Nat) : Outcome Nat := if y = 0 then .panic .rdivzero else .ok (x % y)
 
